@@ -98,7 +98,7 @@ func (c *fctx) effectiveResults(d *ast.FuncDecl, sig *types.Signature) []types.T
 		out[i] = sig.Results().At(i).Type()
 	}
 	for i := range out {
-		if !isInterface(out[i]) {
+		if !isInterface(out[i]) || isErrorType(out[i]) {
 			continue
 		}
 		var conc types.Type
@@ -630,4 +630,26 @@ func (c *fctx) copyCall(call *ast.CallExpr) (types.Object, string, string, bool)
 		c.fail(call.Pos(), "copy from a non-slice")
 	}
 	return o, c.expr(did), c.expr(call.Args[1]), true
+}
+
+// ifaceParams: the number of interface-typed parameters of the function (the error type
+// excluded) and the 1-based position of v among them.  With more than one, the opaque
+// parameters that stand for their methods are named <name>_<position>.
+func (c *fctx) ifaceParams(v *types.Var) (n, idx int) {
+	var all []*types.Var
+	if r := c.sig.Recv(); r != nil {
+		all = append(all, r)
+	}
+	for i := 0; i < c.sig.Params().Len(); i++ {
+		all = append(all, c.sig.Params().At(i))
+	}
+	for _, p := range all {
+		if isInterface(p.Type()) && !isErrorType(p.Type()) {
+			n++
+			if p == v {
+				idx = n
+			}
+		}
+	}
+	return
 }
